@@ -317,3 +317,11 @@ def arbitrary_text_not_a_version(violation, m):
     except InvalidVersion:
         return True
     return False
+
+
+@matcher("c11_email_surrogate")
+def _c11_email_surrogate(v, m):
+    """str input containing a surrogate code point, given to parse_email / Metadata.from_email, raising UnicodeEncodeError"""
+    i = v["input"]
+    return (i["entry"] in ("parse_email", "Metadata.from_email") and isinstance(i["input"], str)
+            and any(0xD800 <= ord(c) <= 0xDFFF for c in i["input"]) and "UnicodeEncodeError" in str(v.get("detail", "")))
